@@ -161,15 +161,25 @@ def run_H(case):
     beh = []
     n = 0
     model = hourly_model(zone)
-    for variant, first, days in (("mid", day - pd.Timedelta(days=1), 3), ("first", day, 2), ("last", day - pd.Timedelta(days=1), 2)):
+    for variant, first, days in (("mid", day - pd.Timedelta(days=1), 3), ("first", day, 2), ("last", day - pd.Timedelta(days=1), 2),
+                                 ("mid_gappy", day - pd.Timedelta(days=1), 3)):
         idx = local_days_index(first, days, zone)
         temp = 50.0 + 10.0 * np.sin(np.arange(len(idx)) / 5.0)
         obs = 1.0 + 0.1 * (np.arange(len(idx)) % 24)
         for usage in (True, False):
             key = dict(key0, usage=usage)
             cols = {"observed": obs, "temperature": temp} if usage else {"temperature": temp}
+            frame = pd.DataFrame(cols, index=idx)
+            if variant == "mid_gappy":
+                # "starts and ends at any hour, with gaps": first row at 06:00, last at 17:00, absent rows and NaN temperature cells
+                # (also next to the transition); the data class fills them, every row of its frame must still be predicted
+                frame = frame.iloc[6:len(frame) - 6].copy()
+                n = len(frame)
+                frame.iloc[[3, n // 2 - 1, n // 2, n - 9], frame.columns.get_loc("temperature")] = np.nan
+                frame = frame.drop(frame.index[[10, 11, n // 2 + 5]])
+                key = dict(key, gappy=True)
             try:
-                data = em.HourlyReportingData(pd.DataFrame(cols, index=idx), is_electricity_data=True)
+                data = em.HourlyReportingData(frame, is_electricity_data=True)
             except Exception as exc:
                 viol.append({"clause": "data_class_raised", "key": dict(key, exc=type(exc).__name__),
                              "detail": f"{zone} {variant} {idx[0]}..{idx[-1]}: {type(exc).__name__}: {exc}"})
@@ -196,7 +206,7 @@ def run_H(case):
                              "detail": f"{zone} {variant}: {int((~np.isfinite(p['predicted'].to_numpy(float))).sum())} rows"})
             beh.append(len(p))
             # slot level
-            if size == "1h" and usage:
+            if size == "1h" and usage and variant != "mid_gappy":
                 try:
                     dst = _get_dst_indices(df)
                     dates = sorted(set(df.index.date))
